@@ -76,4 +76,15 @@ theorem slice_guard_wrapping_counterexample :
 theorem range_guard_exact (first : Int) (num : Nat) (hnum : (num : Int) ≤ 2 ^ 63 - 1) :
     (first > (2 ^ 63 - 1 : Int) - num) ↔ first + num > (2 ^ 63 - 1 : Int) := by omega
 
+/-- `_GD_DoRawOut` / `_GD_DoSeek`: `s0 > INT64_MAX / size` (sample size > 0) rejects
+    exactly the positions whose byte offset `s0 * size` does not fit in an int64 —
+    tested, since fix 5.82, before the field is opened for writing. -/
+theorem offset_guard_exact (s0 size : Nat) (hs : 0 < size) :
+    (s0 > (2 ^ 63 - 1) / size) ↔ s0 * size > 2 ^ 63 - 1 := by
+  constructor
+  · intro h
+    exact (Nat.div_lt_iff_lt_mul hs).mp h
+  · intro h
+    exact (Nat.div_lt_iff_lt_mul hs).mpr h
+
 end GdModel.Props.C10
